@@ -29,6 +29,11 @@ func convert(b []byte) (out []byte, err error) {
 		return nil, err
 	}
 
+	// the scanner stops silently at the first non-hex character
+	if len(out)*2 != len(b) {
+		return nil, fmt.Errorf("invalid hex data %q", b)
+	}
+
 	return out, nil
 
 }
@@ -55,17 +60,33 @@ func Read(rd io.Reader) (out []byte, deltams int32, err error) {
 			return nil, -1, errRd
 		}
 
-		if b == ' ' {
-			deltams, err = convertDelta(deltaBf)
-			if err != nil {
-				return
+		if b == limit {
+			if err == nil && !deltaRead {
+				err = fmt.Errorf("malformed line: missing separator")
 			}
-			deltaRead = true
+			if err != nil {
+				return nil, -1, err
+			}
+			return out, deltams, err
+		}
+
+		// a malformed line is skipped up to its end, so that the rest of it
+		// is not taken for a line of its own
+		if err != nil {
 			continue
 		}
 
-		if b == limit {
-			return out, deltams, err
+		if b == ' ' {
+			if deltaRead {
+				if len(out) > 0 {
+					// a second separator: two lines have run together
+					err = fmt.Errorf("malformed line: unexpected space after %q", out)
+				}
+				continue
+			}
+			deltams, err = convertDelta(deltaBf)
+			deltaRead = true
+			continue
 		}
 
 		if deltaRead {
